@@ -929,6 +929,34 @@ pub fn gen_rd(r: &mut Rng, tc: u16, pool: &[N], clean: bool) -> RD {
     }
 }
 
+/// RDATA values each of which is a proper prefix of the next (and variants ending in zero octets)
+fn prefix_family(r: &mut Rng, tc: u16) -> Vec<RD> {
+    if tc == T_TXT {
+        let a = r.pick(&["a", "A", "ab", ""]).as_bytes().to_vec();
+        let bb = r.pick(&["b", "", "\0", "a"]).as_bytes().to_vec();
+        let z: Vec<u8> = vec![0];
+        vec![
+            RD::Txt(vec![a.clone()]),
+            RD::Txt(vec![a.clone(), bb.clone()]),
+            RD::Txt(vec![a.clone(), vec![]]),
+            RD::Txt(vec![a.clone(), z.clone()]),
+            RD::Txt(vec![a.clone(), bb.clone(), b"c".to_vec()]),
+            RD::Txt(vec![a.clone(), vec![], vec![]]),
+            RD::Txt(vec![]),
+        ]
+    } else {
+        let n = r.range(0, 3) as usize;
+        let base: Vec<u8> = (0..n).map(|_| *r.pick(&[0u8, 1, 0x61, 0xff])).collect();
+        let mut v = vec![RD::Op(base.clone())];
+        let mut cur = base;
+        for _ in 0..4 {
+            cur.push(*r.pick(&[0u8, 0, 1, 0x61, 0xff]));
+            v.push(RD::Op(cur.clone()));
+        }
+        v
+    }
+}
+
 fn gen_case(r: &mut Rng) -> Case {
     let tiers = [T_A, T_AAAA, T_NS, T_CNAME, T_PTR, T_MX, T_SOA, T_SRV, T_TXT];
     let tc = if r.chance(1, 5) { *r.pick(OPAQUE_TYPES) } else { *r.pick(&tiers) };
@@ -953,9 +981,19 @@ fn gen_case(r: &mut Rng) -> Case {
     let base_ttl = *r.pick(&[0u32, 60, 300, 3600, 86400, 0xffff_ffff]);
     let mut recs: Vec<Rec> = vec![];
     let mut tries = 0;
+    // prefix-related canonical RDATA ("absence of an octet sorts before a zero octet"): a chain in
+    // which each RDATA is a proper prefix of the next, for TXT and for raw (NULL / unknown) types
+    let family: Option<Vec<RD>> = if [T_TXT, 10, 65280, 99].contains(&tc) && r.chance(1, 2) {
+        Some(prefix_family(r, tc))
+    } else {
+        None
+    };
     while recs.len() < n && tries < 40 {
         tries += 1;
-        let rd = gen_rd(r, tc, &pool, clean);
+        let rd = match &family {
+            Some(f) => r.pick(f).clone(),
+            None => gen_rd(r, tc, &pool, clean),
+        };
         if clean {
             // clean cases satisfy the three hypotheses: distinct canonical RDATA
             if recs.iter().any(|x| x.rd.ref_canon() == rd.ref_canon()) {
@@ -985,6 +1023,14 @@ fn gen_case(r: &mut Rng) -> Case {
         }
         recs.push(d);
     }
+    if family.is_some() && r.chance(1, 2) && !recs.is_empty() {
+        // a duplicate of the shortest RDATA, placed after the longer ones (before the shuffle below,
+        // which is skipped half of the time so that this very order is presented)
+        let shortest = recs.iter().min_by_key(|x| x.rd.ref_canon().map(|c| c.len()).unwrap_or(0)).unwrap().clone();
+        recs.sort_by_key(|x| std::cmp::Reverse(x.rd.ref_canon().map(|c| c.len()).unwrap_or(0)));
+        recs.push(shortest);
+    }
+    let keep_order = family.is_some() && r.chance(1, 2);
     // noise: records that must not be collected
     if r.chance(1, 4) {
         let mut x = recs.first().cloned().unwrap_or(Rec { name: name.clone(), rtype: T_A, cls, ttl: 1, rd: RD::A(vec![1, 2, 3, 4]) });
@@ -1000,7 +1046,7 @@ fn gen_case(r: &mut Rng) -> Case {
         recs.push(x);
     }
     // shuffle
-    for i in (1..recs.len()).rev() {
+    for i in (1..if keep_order { 0 } else { recs.len() }).rev() {
         let j = r.below(i as u64 + 1) as usize;
         recs.swap(i, j);
     }
@@ -1017,6 +1063,9 @@ fn gen_case(r: &mut Rng) -> Case {
     } as u8;
     let mut signer = gen_n(r);
     signer.fqdn = true;
+    if r.chance(1, 2) {
+        signer = flip_case(r, &signer, 50);
+    }
     Case {
         name,
         cls,
@@ -1094,6 +1143,23 @@ fn hand_built() -> Vec<Case> {
         c.labels = labels;
         v.push(c);
     }
+    // mixed-case owner (and wildcard owner) with the Labels field below / at / above the label count
+    for labels in 0..6u8 {
+        let mut c = base("Www.A.Example.COM.", T_A, vec![(5, RD::A(vec![1, 2, 3, 4])), (5, RD::A(vec![1, 2, 3, 3]))]);
+        c.labels = labels;
+        c.signer = nm("SIGNER.Example.ORG.");
+        v.push(c);
+        let mut c = base("*.MiXed.Example.", T_TXT, vec![(5, RD::Txt(vec![b"x".to_vec()]))]);
+        c.labels = labels;
+        v.push(c);
+    }
+    // prefix-related canonical RDATA, longer first, a duplicate of the shorter one after the longer one
+    let t = |ss: &[&str]| RD::Txt(ss.iter().map(|x| x.as_bytes().to_vec()).collect());
+    v.push(base("example.com.", T_TXT, vec![(5, t(&["a", "b"])), (5, t(&["a"])), (5, t(&["a", "b"])), (5, t(&["a"]))]));
+    v.push(base("example.com.", T_TXT, vec![(5, t(&["a", "b"])), (5, t(&["a"]))]));
+    v.push(base("example.com.", T_TXT, vec![(5, t(&["a"])), (5, t(&["a", "b"])), (5, t(&["a", ""])), (5, t(&["a", "\0"]))]));
+    v.push(base("example.com.", 65280, vec![(5, RD::Op(vec![1, 0, 0])), (5, RD::Op(vec![1])), (5, RD::Op(vec![1, 0])), (5, RD::Op(vec![])), (5, RD::Op(vec![1]))]));
+    v.push(base("example.com.", 10, vec![(5, RD::Op(vec![0x61, 0x62])), (5, RD::Op(vec![0x61])), (5, RD::Op(vec![0x61, 0]))]));
     // root owner, empty RRset
     v.push(base(".", T_NS, vec![(5, RD::Ns(nm("a.root-servers.net."))), (5, RD::Ns(nm("B.root-servers.net.")))]));
     v.push(base("example.com.", T_NS, vec![]));
